@@ -66,6 +66,21 @@ class HeapFn(cxx2gal.LoopFn):
     MEM_T = "heap"
 
     # ------------------------------------------------------------------ types and layouts
+    def callee_name(self, n):
+        """the name of the called function; when the configuration has an entry "Class::name" for a member call whose object is of
+        class Class, that qualified name (two members of different classes may share a name)"""
+        name = super().callee_name(n)
+        m = n
+        while m.get("kind") in ("ImplicitCastExpr", "ParenExpr") and self.inner(m):
+            m = self.inner(m)[0]
+        if m.get("kind") == "MemberExpr" and self.inner(m):
+            q = norm_type(qual(self.inner(m)[0]))
+            q = re.sub(r"\bconst\b", "", q).replace("*", "").replace("&", "").strip()
+            q = re.sub(r"^(struct|class)\s+", "", q).split("::")[-1]
+            if "%s::%s" % (q, name) in self.calls:
+                return "%s::%s" % (q, name)
+        return name
+
     def rec_name(self, q):
         q = norm_type(q)
         q = re.sub(r"^(struct|class)\s+", "", q)
@@ -103,7 +118,8 @@ class HeapFn(cxx2gal.LoopFn):
         q = TYPEDEFS.get(norm_type(q), q)
         if self.is_rec_ptr(q):
             return "hptr"
-        if norm_type(q) in self.cfg.get("enums", []):
+        qn = re.sub(r"\bconst\b", "", norm_type(q)).strip()
+        if qn in self.cfg.get("enums", []) or qn.split("::")[-1] in self.cfg.get("enums", []):
             return "Z"
         t = ctype(q)
         if t[0] in ("int", "bool", "enum", "ptr"):
@@ -678,6 +694,8 @@ class HeapFn(cxx2gal.LoopFn):
             return k(self.this_var())
         if callee.get("isArrow"):
             return self.E(base, k)
+        if self.is_opaque_obj(qual(base)):       # an object of an opaque class: the integer that identifies it
+            return self.E(base, k)
         return self.obj_addr(base, k)
 
     def call(self, spec, args, k):
@@ -873,6 +891,9 @@ class HeapFn(cxx2gal.LoopFn):
         ret = qual(node).split("(")[0].strip()
         ret = TYPEDEFS.get(norm_type(ret), ret)
         void = norm_type(ret) == "void"
+        self.returns_self = False
+        if self.cfg.get("returns_self") and ret.strip().endswith("&") and not void:
+            void, self.returns_self = True, True          # `return *this;` (a fluent interface): nothing is returned here
         self.uses_this = False
         self.gparams = []
         self.void = void
